@@ -109,6 +109,10 @@ pub fn judge(inst: &Instance, hist: &[Act], r: &RunResult) -> Vec<(String, Strin
     if r.panicked.is_some() || r.harness_error.is_some() {
         return out;
     }
+    if let Some(f) = &r.preamble_fault {
+        out.push(("refused-packet-not-refused-cleanly".into(), f.clone()));
+        return out;
+    }
     match &inst.program {
         Program::ReadLoop => {
             let (want, ka) = reference_reads(inst, hist, &r.delivered);
@@ -287,10 +291,12 @@ pub fn judge(inst: &Instance, hist: &[Act], r: &RunResult) -> Vec<(String, Strin
             let codec = Codec::new(mode_of(inst.compressed));
             let mut expect_all: Vec<u8> = vec![];
             let mut ends = vec![];
+            let mut refused = vec![];
             for p in ps {
                 match codec.encode(p) {
-                    Ok(b) => expect_all.extend_from_slice(&b),
-                    Err(_) => {},
+                    Ok(b) => { expect_all.extend_from_slice(&b); refused.push(false); },
+                    // a packet the codec refuses on its own: write() reports the refusal and the wire never hears of it
+                    Err(_) => refused.push(true),
                 }
                 ends.push(expect_all.len());
             }
@@ -299,6 +305,13 @@ pub fn judge(inst: &Instance, hist: &[Act], r: &RunResult) -> Vec<(String, Strin
                 return out;
             }
             for (i, res) in r.results.iter().enumerate() {
+                if refused[i] {
+                    if res == "Ok(())" || r.written_at[i] != ends[i] {
+                        out.push(("refused-packet-not-refused-cleanly".into(), format!("write #{i} of a packet the codec refuses returned {res} with {} byte(s) on the wire where {} are due", r.written_at[i], ends[i])));
+                        return out;
+                    }
+                    continue;
+                }
                 if res == "Ok(())" && r.written_at[i] != ends[i] {
                     let cat = if inst.imp == Impl::Blocking { "write-returned-before-frame-complete" } else { "write-returned-before-frame-complete" };
                     out.push((cat.into(), format!("write #{i} returned Ok after {} of {} byte(s) had reached the transport", r.written_at[i] - if i > 0 { ends[i - 1] } else { 0 }, ends[i] - if i > 0 { ends[i - 1] } else { 0 })));
